@@ -3,8 +3,8 @@ C12 — data-loader results do not depend on what was read before.
 
 Model: `Loader.read` (FeVerif/Model/Loader.lean) is `DataLoader._read` of
 python/fusion_engine_client/analysis/data_loader.py with its cache `self.data`; `Variant.current`
-is the code as it is (after the repairs aa1fd47, de0a08a, f5bc4ad, c531000, 1299cac and the sixth one,
-positive `max_messages` no longer cutting the index), `Variant.legacy`
+is the code as it is (after the repairs aa1fd47, de0a08a, f5bc4ad, c531000, 1299cac, the sixth one,
+positive `max_messages` no longer cutting the index, and 20ca4d6 in `TimeRange.__eq__`), `Variant.legacy`
 the code before them.  The log reader, the registry and the log are parameters (`Reader`, `Reg`,
 `List Entry`), universally quantified below.  The model is tied to the source by the correspondence
 harness tools/props/c12.py (call histories on one real `DataLoader` vs. `Loader.runHist`).
@@ -130,7 +130,7 @@ def log : List Entry :=
 
 /-- `read(message_types=ts)` with every other argument at its default. -/
 def call (ts : List Nat) : Args :=
-  { types := ts, timeRange := ⟨none, none, false⟩, sourceIds := none, ignoreCache := false, maxMessages := none,
+  { types := ts, timeRange := ⟨none, none, false, none⟩, sourceIds := none, ignoreCache := false, maxMessages := none,
     requireP1 := false, requireSys := false, inOrder := false, returnIndex := false, returnNumpy := false,
     keepMessages := false, removeNan := true, align := Align.none, alignedTypes := none }
 
@@ -201,6 +201,34 @@ theorem C12_each_cache_repair_needed :
       ≠ some (readFresh { Variant.current with newOnly := false } reg rd log (call [P, A]))) := by
   exact ⟨fun h => absurd (congrArg msgsOf h) (by decide), fun h => absurd (congrArg msgsOf h) (by decide),
     fun h => absurd (congrArg msgsOf h) (by decide)⟩
+
+namespace C12W
+/-- A reader that evaluates a relative range with the range's own t0 when one is given, as
+`FileIndex.get_time_range()` does: here `[t0 + start, t0 + stop)` on the P1 times, from t0 = 2 (the first
+P1 time of the log) when the range has none; entries without P1 time are kept. -/
+def rdT0 : Reader :=
+  { timeSel := fun tr l => l.filter (fun x =>
+      match x.time, tr.start, tr.stop with
+      | some t, some s, some e => decide ((tr.t0.getD 2) + s ≤ t) && decide (t < (tr.t0.getD 2) + e)
+      | _, _, _ => true)
+    dropsUntimed := false, available := fun _ => [0, 1], keepsUnavailable := false }
+end C12W
+
+open C12W in
+/-- The seventh repair (20ca4d6): the relative range `[1.0, 2.0)` s with explicit t0 = 1.0 s and the same range
+with explicit t0 = 2.0 s were one cache key (`TimeRange.__eq__` ignored t0), so the second read returned the
+messages of the first (P1 times [2.0, 3.0) s: ordinals 2, 3) where a fresh loader returns those at
+[3.0, 4.0) s (ordinal 6).  Since the repair the second call is read again. -/
+theorem C12_unrepaired_time_range_t0_fails :
+    (lastOf { Variant.current with keyT0 := false } reg rdT0 log Cache.empty
+        [{ call [P, A] with timeRange := ⟨some 2, some 4, false, some 2⟩ },
+         { call [P, A] with timeRange := ⟨some 2, some 4, false, some 4⟩ }]
+      ≠ some (readFresh { Variant.current with keyT0 := false } reg rdT0 log
+          { call [P, A] with timeRange := ⟨some 2, some 4, false, some 4⟩ })) ∧
+    msgsOf (lastOf Variant.current reg rdT0 log Cache.empty
+        [{ call [P, A] with timeRange := ⟨some 2, some 4, false, some 2⟩ },
+         { call [P, A] with timeRange := ⟨some 2, some 4, false, some 4⟩ }]) = [(P, []), (A, [6])] := by
+  exact ⟨fun h => absurd (congrArg msgsOf h) (by decide), by decide⟩
 
 open C12W in
 /-- The two `max_messages` defects of fresh reads before the repairs: with `source_ids=[0]`,
